@@ -165,12 +165,12 @@ pub fn main(args: &[String]) {
         if let Ok(b) = wat::parse_str(&wat) { inputs.push((format!("count-boundary-{}i-{}l-{}u", ni, nl, unused), b)); } }
     inputs.extend(boundary_bodies());
     let (mut n_cases, mut n_pairs, mut n_funcs, mut n_unmodelled) = (0u64, 0u64, 0u64, 0u64);
-    let (mut n_gc, mut n_edit) = (0u64, 0u64);
+    let (mut n_gc, mut n_edit, mut n_added) = (0u64, 0u64, 0u64);
     for (name, wasm) in &inputs {
         if amod::validate(wasm, feats).is_err() { continue; }
         // variants: unchanged; GC before emitting; marker instructions inserted at random places through the builder API
         let big = name.starts_with("many-functions-");
-        let variants: Vec<u8> = if big { vec![0] } else { vec![0, 1, 2] };
+        let variants: Vec<u8> = if big { vec![0] } else { vec![0, 1, 2, 3] };
         for variant in variants {
             let names = r.chance(1, 2);
             let seed_edit = r.below(1 << 30);
@@ -182,21 +182,25 @@ pub fn main(args: &[String]) {
                             for _ in 0..(1 + rr.usize(3)) { let sk = *rr.pick(&keys); let sid = seqs[&sk]; let len = lf.block(sid).instrs.len(); let pos = rr.usize(len + 1);
                                 let mut b = lf.builder_mut().instr_seq(sid); b.instr_at(pos, ir::Const { value: ir::Value::I32(MARKER) }); b.instr_at(pos + 1, ir::Drop {});
                                 edits.borrow_mut().push((fid.index(), sk, pos)); } } }
+                    // a NEW function built through the API, larger than the parsed ones (so it is emitted in front of them), exported
+                    if variant == 3 { let mut b = FunctionBuilder::new(&mut m.types, &[], &[]); { let mut body = b.func_body(); for _ in 0..(20 + (seed_edit % 40) as usize) { body.i32_const(MARKER).drop(); } }
+                        let f = b.finish(vec![], &mut m.funcs); m.exports.add("added-through-the-api", f); }
                 })) { Some(Ok(o)) => o, Some(Err(_)) => continue,
                 None => { viol.push(Json::obj(vec![("class", Json::s("emit-panics-with-code-transform")), ("props", Json::s("C11 C02")), ("what", Json::s(format!("{}: parse/emit panics with preserve_code_transform (variant {})", name, variant))), ("input", Json::s(crate::c03::hex(wasm)))])); continue; } };
             if variant == 2 && amod::validate(&o.out, feats).is_err() { continue; }
             if let Err(e) = amod::validate(&o.out, feats) { if true { viol.push(Json::obj(vec![("class", Json::s("output-invalid-with-code-transform")), ("props", Json::s("C02")), ("what", Json::s(format!("{}: output does not validate (variant {}): {}", name, variant, e))), ("input", Json::s(crate::c03::hex(wasm)))])); } }   // a marker landed in a place where it breaks typing (e.g. after a terminator of a typed block): not a well-formed edit
-            let vname = format!("{}{}", name, ["", " (after gc)", " (markers inserted)"][variant as usize]);
+            let vname = format!("{}{}", name, ["", " (after gc)", " (markers inserted)", " (a function added through the API)"][variant as usize]);
             oracle(&vname, wasm, &o, &mut viol);
             if variant == 1 { n_gc += 1; } if variant == 2 { n_edit += 1; }
             n_pairs += o.ct.pairs.len() as u64; n_funcs += o.ct.ranges.len() as u64;
             if name.starts_with("many-functions-16") { continue; }   // too large a term for the Coq side; covered by the oracle
             let ed: Vec<(usize, usize, usize)> = edits.borrow().clone();
+            if variant == 3 { n_added += 1; continue; }   // the added function has no counterpart in the input stream the Coq case is built from: oracle only
             match coq_case(wasm, &o, variant == 1, &ed) { Some(line) => { if samples.len() < 2 && line.len() < 1500 { samples.push(line.clone()); } w.push(&line); n_cases += 1; } None => n_unmodelled += 1 }
         }
     }
     w.finish();
-    let meta = Json::obj(vec![("cases", Json::n(n_cases as f64)), ("inputs", Json::u(inputs.len())), ("corpus", Json::u(n_corpus)), ("fixtures", Json::u(n_fix)), ("generated", Json::u(n_gen)), ("after_gc", Json::n(n_gc as f64)), ("with_inserted_instructions", Json::n(n_edit as f64)), ("pairs_checked", Json::n(n_pairs as f64)), ("function_ranges_checked", Json::n(n_funcs as f64)),
+    let meta = Json::obj(vec![("cases", Json::n(n_cases as f64)), ("inputs", Json::u(inputs.len())), ("corpus", Json::u(n_corpus)), ("fixtures", Json::u(n_fix)), ("generated", Json::u(n_gen)), ("after_gc", Json::n(n_gc as f64)), ("with_inserted_instructions", Json::n(n_edit as f64)), ("with_added_function", Json::n(n_added as f64)), ("pairs_checked", Json::n(n_pairs as f64)), ("function_ranges_checked", Json::n(n_funcs as f64)),
         ("outside_modelled_universe", Json::n(n_unmodelled as f64)), ("samples", Json::Arr(samples.into_iter().map(|s| Json::Str(s.chars().take(900).collect())).collect())), ("oracle_violations", Json::Arr(viol))]);
     std::fs::write(format!("{}/meta.json", out_dir), meta.to_string()).unwrap();
 }
